@@ -392,6 +392,10 @@ class _Unroller:
                 if un is not None:
                     out.extend(self._block(un, cls_scope, local_names))
                     continue
+            ks = self._key_split(st, cls_scope, local_names)
+            if ks is not None:
+                out.extend(ks)
+                continue
             dd = self._dict_dispatch(st, body[i + 1:], cls_scope,
                                      local_names)
             if dd is not None:
@@ -414,6 +418,54 @@ class _Unroller:
                 v = sc.tables.get(e.attr)
                 return v if v is not None and _is_dict_table(v) else None
         return None
+
+    def _key_split(self, st, cls_scope, local_names):
+        """A simple statement using `D[k]` (D a literal dict table with at
+        most 8 keys, k a run-time name) in place, e.g. `D[k].append(x)`:
+        one copy per key under `k == key`, with k replaced by the key."""
+        if not isinstance(st, (ast.Expr, ast.AugAssign)) and not (
+                isinstance(st, ast.Assign) and not isinstance(
+                    st.value, (ast.Subscript,))):
+            return None
+        pairs = {}
+        for n in ast.walk(st):
+            if isinstance(n, ast.Subscript) and isinstance(
+                    n.slice, ast.Name) and isinstance(
+                        n.slice.ctx, ast.Load) and isinstance(
+                            n.value, (ast.Name, ast.Attribute)):
+                t = self._dict_of(n.value, cls_scope, local_names)
+                if t is not None and len(t.keys) <= 8:
+                    pairs[(ast.dump(n.value), n.slice.id)] = t
+        if len(pairs) != 1:
+            return None
+        (dtxt, kname), table = list(pairs.items())[0]
+        if kname in _stores([st]):
+            return None
+        tail = [ast.copy_location(ast.Raise(
+            exc=ast.Call(func=ast.Name(id='KeyError', ctx=ast.Load()),
+                         args=[ast.Name(id=kname, ctx=ast.Load())],
+                         keywords=[]), cause=None), st)]
+
+        class KeySub(ast.NodeTransformer):
+            def __init__(self, key):
+                self.key = key
+
+            def visit_Subscript(self, node):
+                self.generic_visit(node)
+                if isinstance(node.slice, ast.Name) and \
+                        node.slice.id == kname and ast.dump(
+                            node.value) == dtxt:
+                    node.slice = copy.deepcopy(self.key)
+                return node
+        for key in reversed(table.keys):
+            new = KeySub(key).visit(copy.deepcopy(st))
+            test = ast.Compare(left=ast.Name(id=kname, ctx=ast.Load()),
+                               ops=[ast.Eq()],
+                               comparators=[copy.deepcopy(key)])
+            tail = [ast.copy_location(ast.If(test=test, body=[new],
+                                             orelse=tail), st)]
+        self.count += 1
+        return tail
 
     def _dict_dispatch(self, st, rest, cls_scope, local_names):
         """`a, b = D[k]; rest` with D a literal dict table and k a run-time
